@@ -49,6 +49,8 @@ class ParseMCNPCell:
     '''Class that parses the CELLS block.'''
 
     LIKE_RE = re.compile(r'like\s+(\d+)\s+but')
+    # data-entry shorthand without a leading number: R, I, J, LOG, ILOG
+    SHORTHAND_RE = re.compile(r'^(r|i|j|log|ilog)$')
 
     def __init__(self, mcnp_parser, cell_cache_path, lattice_params):
         '''
@@ -290,7 +292,8 @@ class ParseMCNPCell:
                        'after FILL keyword')
                 raise ParseMCNPCellError(msg) from None
             del kw_list[-consumed:]  # remove the last `consumed` elements
-            if kw_list and kw_list[-1][0] in '0123456789.+-':
+            if kw_list and (kw_list[-1][0] in '0123456789.+-'
+                            or self.SHORTHAND_RE.match(kw_list[-1])):
                 msg = (f'expected {bounds.size()} universe specifications '
                        'after FILL keyword, found more')
                 raise ParseMCNPCellError(msg)
